@@ -65,7 +65,7 @@ CLAIMS = {
             'U', '§4 C12'),
     'C18': ('One inductive step per mutation (setter pair, bulk update) from an arbitrary valid object against a freshly '
             'constructed twin: density / mass at a symbolic point, mean, variance and - for closed-form samplers - the draw '
-            'from the same recorded RNG stream; valid targets accepted across disjoint intervals; invalid values rejected '
+            'from the same recorded RNG stream; valid targets accepted across disjoint intervals, and by each single DiscreteUniform setter up to the one-point range the constructor accepts; invalid values rejected '
             'in setters and updates (R). Derived sampler state (Beta, ChiSquared): the object representation after any setter / '
             'update equals a fresh object\'s for every parameter (U/B, sufficient condition), with bounded same-stream draws '
             'as the necessary-side fall-back.', 'R/U/B', '§4 C18, §9'),
